@@ -25,7 +25,8 @@ from . import c02
 PACKS = {"plain": dict(), "sym": dict(sym=True), "inf": dict(inf=True), "syminf": dict(sym=True, inf=True),
          "symcycle": dict(sym=True, cycle=True),
          # two competing expansion strategies: the finder's second phase has alternatives to backtrack over
-         "two": dict(expand2=True), "twosym": dict(expand2=True, sym=True)}
+         "two": dict(expand2=True), "twosym": dict(expand2=True, sym=True),
+         "twocycle": dict(expand2=True, cycle=True), "twosymcycle": dict(expand2=True, cycle=True, sym=True)}
 ABC3 = [(("ab", "cc"), "abc"), (("bc", "aa"), "abc"), (("ca", "bb"), "abc"), (("ba", "cc"), "abc"), (("ac", "bb"), "abc"),
         (("cc",), "abc"), (("aa",), "abc"), (("bb",), "abc"), (("b",), "abc"), (("a",), "abc")]
 STARTS = [(("aa",), "ab"), (("bb",), "ab"), (("ab",), "ab"), (("ba",), "ab"), (("aba",), "ab"), (("bab",), "ab"), (("aa", "bb"), "ab"),
@@ -39,10 +40,17 @@ STARTS = [(("aa",), "ab"), (("bb",), "ab"), (("ab",), "ab"), (("ba",), "ab"), ((
 TWO3 = [("aca", "bca"), ("aab", "bab"), ("aba", "cbc"), ("aca", "cac"), ("bcb", "ccb"), ("abc", "bba"), ("ab",), ("aca",), ("ac", "bb"), ("cab", "cc")]
 
 
+# configurations in which the second search backtracks over a pair one of whose labels was already assigned (found by
+# random sweeps: D13 and a seeded bookkeeping slip show only here)
+TWO3_FORCED = [((("aab", "bca", "cba"), "twosymcycle"), (("acb", "bba", "cab"), "twosymcycle")),
+               ((("bcc", "cba"), "twosym"), (("acc", "cab"), "twosym")),
+               ((("aba", "bcc", "cac"), "two"), (("acc", "bab", "cbc"), "twosymcycle"))]
+
+
 def two3_pairs():
     from ..universes.words import swap_word
 
-    out = []
+    out = [(((P, "abc"), pk1), ((Q, "abc"), pk2)) for (P, pk1), (Q, pk2) in TWO3_FORCED]
     for P in TWO3:
         Q = tuple(sorted(swap_word(p) for p in P))
         for pk1, pk2 in (("twosym", "two"), ("two", "twosym"), ("two", "two"), ("twosym", "twosym")):
@@ -241,7 +249,7 @@ def run(tier: str, seed: int, pid="C12") -> int:
                 Q = tuple(sorted(f(p) for p in P))
                 if any(p in "" for p in P):
                     continue
-                pk1, pk2 = r3.choice(("two", "twosym", "sym", "plain")), r3.choice(("two", "twosym", "sym", "plain"))
+                pk1, pk2 = r3.choice(("two", "twosym", "twocycle", "twosymcycle", "sym", "plain")), r3.choice(("two", "twosym", "twocycle", "twosymcycle", "sym", "plain"))
                 two3 += [(((P, "abc"), pk1), ((Q, "abc"), pk2), v) for v in ("plain", "eqpath")]
         res = pmap(finder_job, forced + abc + two3 + pairs, procs=16, chunk=2)
         seen, traces, specs = set(), [], []
